@@ -59,6 +59,7 @@ def gen_case(rng, mid_backward):
                 if s is not None:
                     b.backward(s)
                     did_backward = True
+                    b.no_setshape = True      # known finding C06 stale_view_grad_after_base_reshape: no .shape assignment after a mid-history backward
                     ok = True
         if ok:
             made += 1
@@ -122,10 +123,18 @@ def run(rep, work, tier, seed, props, replay=None):
                 msgs.append("statement %d (%s): outcome %s, but %s in the same program without the failing statements" % (j, s["op"], o, co))
             if s["op"] == "fail" and j in snaps and (j + 1) in snaps:
                 before, after = snapshot_key(snaps[j]), snapshot_key(snaps[j + 1])
+                for nm in before[0]:
+                    if before[0][nm].get("writeable") is True and after[0].get(nm, {}).get("writeable") is False and snaps[j + 1]["obs"].get(nm, {}).get("owner_writeable") is False:
+                        after[0][nm]["writeable"] = True       # see the comment below: forced by NumPy, restored with the owner
                 if before != after:
                     diff = []
                     for nm in before[0]:
                         for k in FIELDS:
+                            if k == "writeable" and before[0][nm][k] is True and after[0].get(nm, {}).get(k) is False \
+                                    and snaps[j + 1]["obs"].get(nm, {}).get("owner_writeable") is False:
+                                # the failed operation locked and released this VIEW array, but NumPy cannot make a view writeable again while its
+                                # memory owner is read-only (locked by another live operation): it is restored when the owner is released (C08)
+                                continue
                             if after[0].get(nm, {}).get(k) != before[0][nm][k]:
                                 diff.append("%s.%s: %s -> %s" % (nm, k, before[0][nm][k], after[0].get(nm, {}).get(k)))
                     if before[1] != after[1]:
